@@ -34,9 +34,10 @@ fn check(data_in: &[u8], mode: &'static str, note: &str, names: &[Vec<u8>], c: &
     let names: Vec<Vec<u8>> = names.to_vec();
     let e = AnyEndian::Little;
     let rb = open_as(e, data);
-    let reader = Reader::with(data.clone(), chunks.clone(), intr, vec![]);
+    let pos0 = stream::gen_initial_pos(&mut c, data.len());
+    let reader = Reader::with(data.clone(), chunks.clone(), intr, vec![]).at_position(pos0);
     let rs = open_stream_as(e, reader.clone());
-    let ctx = format!("{}-byte {} input ({}), reader chunks {:?} interrupt_every {}", data.len(), inp.mode, inp.note, chunks, intr);
+    let ctx = format!("{}-byte {} input ({}), reader chunks {:?} interrupt_every {} initial position {}", data.len(), inp.mode, inp.note, chunks, intr, pos0);
     let (fb, mut fs) = match (rb, rs) {
         (Ok(a), Ok(b)) => (a, b),
         (Err(_), Err(_)) => {
